@@ -203,12 +203,12 @@ def run(ctx):
     run_corpus(ctx)
     for k in range(20 if ctx.tier == 'quick' else 300):
         history_case(ctx, k)
-        if ctx.n_new() >= 3:
+        if ctx.n_new(with_input_only=True) >= 3:
             return
     n = 300 if ctx.tier == 'quick' else 5000
     for k in range(n):
         one_case(ctx, k)
-        if ctx.n_new() >= 3:
+        if ctx.n_new(with_input_only=True) >= 3:
             break
 
 
